@@ -20,7 +20,9 @@
 #include <sanitizer/lsan_interface.h>
 
 #include <list>
+#include <memory>
 #include <string>
+#include <string_view>
 
 #include <phosg/LRUMap.hh>
 #include <phosg/LRUSet.hh>
@@ -141,12 +143,79 @@ template <>
 struct Conv<int64_t> {
   static int64_t key(unsigned k) { return static_cast<int64_t>(k) * 7919 - 3; }
   static int64_t value(uint64_t v) { return static_cast<int64_t>(v * 3 + 1); }
+  static void prepare() {}
+  static unsigned outstanding() { return 0; }
 };
 template <>
 struct Conv<std::string> {
   // even keys fit the small-string buffer, odd keys live on the heap (dangling key pointers become visible)
   static std::string key(unsigned k) { return (k & 1) ? cat("key-", k, "-", std::string(24 + k, static_cast<char>('a' + k % 26))) : cat("k", k); }
   static std::string value(uint64_t v) { return (v & 1) ? cat("value-", v, "-", std::string(20, 'v')) : cat("v", v); }
+  static void prepare() {}
+  static unsigned outstanding() { return 0; }
+};
+
+// A key type of the kind the containers are written for but that is neither an integer nor a std::string: a small struct that OWNS
+// a resource (a std::string member: short paths sit in the small-string buffer, long ones on the heap, so a copy is deep and a moved-from
+// key is a different - empty - key) with a user-written std::hash specialisation and operator==. The hash is noexcept and cheap, which
+// is what makes libstdc++ NOT cache the hash code in the node (it does for std::string): every rehash / erase(iterator) / bucket walk
+// calls the hash on the key stored in the node again, so a container that lets that stored key change (moves from it, overwrites it)
+// while the node is linked is found out. The hash covers the path only - a legal, weaker hash - so the two keys that share a path and
+// differ in `gen` always collide and the equality comparison inside a bucket is exercised.
+struct PathKey {
+  std::string path;
+  uint32_t gen = 0;
+  bool operator==(const PathKey& o) const { return gen == o.gen && path == o.path; }
+  bool operator!=(const PathKey& o) const { return !(*this == o); }
+};
+
+// A key whose copies share ownership (equality and hash are by identity, std::hash<std::shared_ptr> is the standard library's own
+// noexcept hash; a moved-from key is the null key). The 200 key objects live in a table that is built before the heap scope of a
+// history opens; when the containers of a history are gone every table entry must be the only owner again.
+typedef std::shared_ptr<const std::string> SharedKey;
+
+} // namespace c12
+
+namespace std {
+template <>
+struct hash<c12::PathKey> {
+  size_t operator()(const c12::PathKey& k) const noexcept { return std::hash<std::string_view>()(k.path); }
+};
+} // namespace std
+
+namespace c12 {
+
+template <>
+struct Conv<PathKey> {
+  // path number p = k/2 (odd p: a heap-allocated path, even p: one that fits the small-string buffer), generation k%2
+  static PathKey key(unsigned k) {
+    unsigned p = k / 2;
+    PathKey r;
+    r.path = (p & 1) ? cat("/srv/cache/objects/", std::string(12 + p % 40, static_cast<char>('a' + p % 26)), "/", p, ".bin") : cat("/t/", p);
+    r.gen = (k & 1) ? 0x80000000u + k : 0;
+    return r;
+  }
+  static void prepare() {}
+  static unsigned outstanding() { return 0; }
+};
+template <>
+struct Conv<SharedKey> {
+  static std::vector<SharedKey>& table() {
+    static std::vector<SharedKey> t = [] {
+      std::vector<SharedKey> v;
+      for (unsigned k = 0; k < 200; k++) v.push_back(std::make_shared<const std::string>(cat("object-", k)));
+      return v;
+    }();
+    return t;
+  }
+  static SharedKey key(unsigned k) { return table().at(k); }
+  static void prepare() { table(); }
+  // number of key objects that something other than the table still owns
+  static unsigned outstanding() {
+    unsigned n = 0;
+    for (const auto& p : table()) n += p.use_count() != 1;
+    return n;
+  }
 };
 
 // ------------------------------------------------------------------ reference model
@@ -258,6 +327,7 @@ void check_set_state(SetProbe<K>* inst, Model* model, const Where& when, Stats& 
 
 template <typename K>
 void replay_set(const uint64_t* ops, size_t n, Stats& st) {
+  Conv<K>::prepare();
   alloc_balance::Scope heap;
   {
     SetProbe<K> inst[2];
@@ -403,6 +473,7 @@ void replay_set(const uint64_t* ops, size_t n, Stats& st) {
   }
   // both containers and both models are destroyed: every block allocated since `heap` must be gone
   VCHECK(!heap.leaked(), "leak", heap.excess(), " heap block(s) allocated during the history are still live after the containers were destroyed and LeakSanitizer reports a leak, after: ", describe_history(ops, n, n));
+  VCHECK(Conv<K>::outstanding() == 0, "key-copy-outlives-container", Conv<K>::outstanding(), " shared key object(s) still have an owner besides the key table after the containers were destroyed, after: ", describe_history(ops, n, n));
 }
 
 // ------------------------------------------------------------------ LRUMap
@@ -467,6 +538,7 @@ template <typename K, typename V>
 void replay_map(const uint64_t* ops, size_t n, Stats& st) {
   unsigned nkeys = 0;
   for (size_t i = 0; i < n; i++) nkeys = std::max(nkeys, unpack(ops[i]).key + 1);
+  Conv<K>::prepare();
   alloc_balance::Scope heap;
   {
     MapProbe<K, V> inst[2];
@@ -666,6 +738,7 @@ void replay_map(const uint64_t* ops, size_t n, Stats& st) {
   }
   // both containers and both models are destroyed: every block allocated since `heap` must be gone
   VCHECK(!heap.leaked(), "leak", heap.excess(), " heap block(s) allocated during the history are still live after the containers were destroyed and LeakSanitizer reports a leak, after: ", describe_history(ops, n, n));
+  VCHECK(Conv<K>::outstanding() == 0, "key-copy-outlives-container", Conv<K>::outstanding(), " shared key object(s) still have an owner besides the key table after the containers were destroyed, after: ", describe_history(ops, n, n));
 }
 
 // ------------------------------------------------------------------ exhaustive alphabets
